@@ -20,6 +20,7 @@ var issueToFinding = map[string]string{
 	"missing-import":              "K26-format-pointer-import",
 	"backtick-in-pattern":         "K5-backtick-in-text",
 	"anyof-branch-without-method": "K27-anyOf-ref-without-method",
+	"duplicate-field-name":        "K28-user-identifier-collides",
 }
 
 // where the model does not cover a program (unsupported), a compile failure is attributed by its message
